@@ -332,7 +332,14 @@ class Lane:
                 continue
             written[bridge.real_to_rblock(blk).id()] = bridge.real_to_rblock(blk)
         for blk in store.read_blocks_from_disk():
-            r = bridge.real_to_rblock(blk)
+            try:
+                blk.serialize()
+                r = bridge.real_to_rblock(blk)
+            except Exception as e:
+                self.c["C_ids_from_store"] += 1
+                self.v("block-from-store-has-no-encoding", "a block handed back by the store (id %s..) cannot be encoded: %r -- the id "
+                       "it carries is not the hash of any encoding" % (blk.hash().hex()[:12], e), {"lane": "C-store", "bytes": ""})
+                continue
             self.c["C_ids_from_store"] += 1
             self.c["C_ids_checked"] += 1
             w = {"lane": "C-store", "bytes": r.enc().hex()}
